@@ -56,7 +56,17 @@ def gen(rng):
     for _ in range(rng.randint(1, 2)):
         foreign.append({'subs': subs(rng.randint(1, 2), 7), 'wait': rng.random() < 0.5})
     outcomes = [(rng.choice([0, 0, 0.5]), rng.random() >= 0.25) for _ in range(4)]
-    return {'T': T, 'own': own, 'foreign': foreign, 'outcomes': outcomes, 'final_wait': True}
+    scn = {'T': T, 'own': own, 'foreign': foreign, 'outcomes': outcomes, 'final_wait': True}
+    if rng.random() < 0.3:
+        # the wrapper is constructed by the first foreign thread (which had the loop as its current loop, as a module
+        # level decorator in the main thread does) while another thread runs the loop; and the loop is *quiet*: after
+        # its own submissions it waits for an external signal, with no timer of its own that would wake it up
+        scn['ctor'] = 'foreign'
+        scn['quiet'] = True
+        scn['own'] = [(0, x) for _, x in own[:1]]
+        for f in foreign:
+            f['wait'] = False
+    return scn
 
 
 def run(scn, seed, pct=0, choices=None, preempt=None):
@@ -68,35 +78,49 @@ def run(scn, seed, pct=0, choices=None, preempt=None):
     waits = []
     flaglog = []
     submitted = []          # (who, item) in the order the submitting call was *made*
+    idle_checks = []        # quiet scenarios: (who, t, items of that thread still undelivered after ample time)
     state = {}
     ready = threading.Event()
 
-    def loop_thread():
-        loop = BLoop(S)
-        asyncio.set_event_loop(loop)
-        state['loop'] = loop
-        n = [0]
+    n = [0]
 
-        async def func(xs):
-            k = n[0]
-            n[0] += 1
-            dur, ok = scn['outcomes'][k] if k < len(scn['outcomes']) else (0, True)
-            rec = [S.vt, None, sorted(xs), ok]
-            calls.append(rec)
-            if dur:
-                await asyncio.sleep(dur)
-            rec[1] = S.vt
-            if not ok:
-                raise RuntimeError('scripted failure')
+    async def func(xs):
+        k = n[0]
+        n[0] += 1
+        dur, ok = scn['outcomes'][k] if k < len(scn['outcomes']) else (0, True)
+        rec = [S.vt, None, sorted(xs), ok]
+        calls.append(rec)
+        if dur:
+            await asyncio.sleep(dur)
+        rec[1] = S.vt
+        if not ok:
+            raise (RuntimeError('scripted failure'), asyncio.CancelledError())[k % 2]
+
+    def construct():
+        buf = A.BufferAsyncCalls(func, timeout=scn['T'])
+        flag = FlagProxy()
+        flag.S = S
+        flag.log = flaglog
+        asyncio.Event.set(flag)          # as constructed: set
+        buf.event = flag
+        state['buf'] = buf
+
+    quiet = bool(scn.get('quiet'))
+    foreign_ctor = scn.get('ctor') == 'foreign'
+
+    def loop_thread():
+        if foreign_ctor:
+            S.point('l.start', enabled=lambda: 'buf' in state)
+            loop = state['loop']
+        else:
+            loop = BLoop(S)
+            state['loop'] = loop
+        asyncio.set_event_loop(loop)
 
         async def main():
-            buf = A.BufferAsyncCalls(func, timeout=scn['T'])
-            flag = FlagProxy()
-            flag.S = S
-            flag.log = flaglog
-            asyncio.Event.set(flag)          # as constructed: set
-            buf.event = flag
-            state['buf'] = buf
+            if not foreign_ctor:
+                construct()
+            buf = state['buf']
             ready.set()
             t0 = 0
             for (t, x) in scn['own']:
@@ -105,8 +129,13 @@ def run(scn, seed, pct=0, choices=None, preempt=None):
                     t0 = t
                 submitted.append(('L', x))
                 buf(x)
-            # let the foreign threads finish, then one final barrier from the loop thread
-            await asyncio.sleep(max([0] + [t for f in scn['foreign'] for t, _ in f['subs']]) + 0.25 - t0)
+            if quiet:
+                # no timer of the loop's own: only a thread-safe hand-off can wake it up
+                state['release'] = loop.create_future()
+                await state['release']
+            else:
+                # let the foreign threads finish, then one final barrier from the loop thread
+                await asyncio.sleep(max([0] + [t for f in scn['foreign'] for t, _ in f['subs']]) + 0.25 - t0)
             before = [x for _, x in submitted]
             await buf.wait()
             waits.append(('L', S.vt, before))
@@ -119,13 +148,29 @@ def run(scn, seed, pct=0, choices=None, preempt=None):
 
     def foreign_thread(k, spec):
         def body():
-            S.point('f.start', enabled=lambda: 'buf' in state)
+            if foreign_ctor and k == 0:
+                loop = BLoop(S)
+                asyncio.set_event_loop(loop)          # the constructing thread's current loop, run by thread L
+                state['loop'] = loop
+                construct()
+            S.point('f.start', enabled=lambda: 'buf' in state and (not quiet or 'release' in state))
             buf = state['buf']
             for (t, x) in spec['subs']:
                 if S.vt < t:
                     S.point('f.sleep', enabled=lambda: False, deadline=t)
                 submitted.append((f'F{k}', x))
                 buf(x)
+            if quiet:
+                # give the buffer ample (virtual) time, look, and only then wake the loop's main coroutine
+                S.point('f.sleep', enabled=lambda: False,
+                        deadline=S.vt + 6 * scn['T'] + 4 * max([0.5] + [d for d, _ in scn['outcomes']]))
+                done_now = [x for c in calls if c[3] and c[1] is not None for x in c[2]]
+                idle_checks.append((f'F{k}', S.vt, [x for _, x in spec['subs'] if x not in done_now]))
+                state.setdefault('released', 0)
+                state['released'] += 1
+                if state['released'] == len(scn['foreign']):
+                    state['loop'].call_soon_threadsafe(
+                        lambda: state['release'].done() or state['release'].set_result(None))
             if spec['wait']:
                 before = [x for w, x in submitted if w == f'F{k}']
                 loop = BLoop(S)
@@ -150,7 +195,8 @@ def run(scn, seed, pct=0, choices=None, preempt=None):
     except Exception:  # noqa
         pass
     return dict(calls=[tuple(c) for c in calls], waits=waits, hung=S.hung, errors=list(S.errors), trace=list(S.trace),
-                branching=list(S.branching), flaglog=flaglog, submitted=list(submitted))
+                branching=list(S.branching), flaglog=flaglog, submitted=list(submitted),
+                idle_checks=idle_checks)
 
 
 def monitors(scn, r, want):
@@ -163,6 +209,12 @@ def monitors(scn, r, want):
     delivered = [x for c in okcalls for x in c[2]]
     everything = [x for _, x in r['submitted']]
     if 'C03' in want:
+        for who, t, missing in r.get('idle_checks', []):
+            if missing:
+                bad.append(('C03', 'stuck-while-idle', f'{missing}, submitted by {who} while the loop was idle (the wrapper '
+                                                       f'had been constructed by thread F0, the loop is run by thread L), '
+                                                       f'had still not been delivered at {t}, long after timeout + call '
+                                                       f'duration: the hand-off did not wake the loop'))
         for c in r['calls']:
             for x in c[2]:
                 if x not in everything:
